@@ -58,7 +58,7 @@ def build(ctx, variants):
 
 
 def run(ctx):
-    proof = vlib.coq_prove(ctx, FILES)
+    proof = vlib.coq_prove(ctx, FILES, leaves=['callbacklist', 'dispatch'])
     variants = dict(VARIANTS_QUICK)
     if ctx.tier == 'thorough':
         variants.update(VARIANTS_MORE)
